@@ -232,7 +232,9 @@ def cardinality (d : DFA σ α) : Res Nat :=
       | .ok (some limit) =>
           .ok (((List.range' i (limit + 1 - i)).map d.countWordsOfLength).sum)
 
-/-- `len(dfa)`. -/
+/-- The method `DFA.__len__` (`return self.cardinality()`).  The builtin `len(dfa)` converts this
+result to a `Py_ssize_t` and raises `OverflowError` from 2^63 on: `DFA.lenBuiltin`,
+Model/DFALen.lean. -/
 def len (d : DFA σ α) : Res Nat := d.cardinality
 
 /-! ### `__iter__` -/
